@@ -59,9 +59,10 @@ def _case(draw):
     shadowed_by_param = {"G1": "G1", "v2": "v2"}.get(p)
     items = []
     used = set()
+    may_refuse = False
     n = draw(st.integers(1, 4))
     for _ in range(n):
-        k = draw(st.integers(0, 15))
+        k = draw(st.integers(0, 19))
         ref_key = draw(st.sampled_from([r for r in REFS if r != shadowed_by_param]))
         ref = REFS[ref_key].replace("{v1}", v1_name)
         num = numeric[ref_key]
@@ -98,6 +99,25 @@ def _case(draw):
         elif k == 10:
             items.append(f"({ref}, {ref})")
             used.add(ref_key)
+        elif k == 16:
+            # parameters of every kind hide a captured variable of the same name (the called lambda is applied by python itself)
+            s = draw(st.sampled_from(["G1", v1_name, "v2"]))
+            if s != p:
+                items.append(draw(st.sampled_from([f"(lambda *{s}: {s}[0])({p}.n)", f"(lambda *, {s}: {s})({s}={p}.n)", f"(lambda {s}, /: {s})({p}.n)",
+                                                   f"(lambda **{s}: {s}['k'])(k={p}.n)"])))
+        elif k == 17 and ref_key in ("G1", "v2", "v1"):
+            # ... while the DEFAULT value of a parameter is read outside the lambda: the captured name there is frozen
+            items.append(f"(lambda {ref}={ref}: ({p}.n, {ref}))()")
+            used.add(ref_key)
+        elif k == 18 and num:
+            # a method called on the captured value: the receiver is frozen too
+            items.append(f"({p}.n, {ref}.conjugate())")
+            used.add(ref_key)
+            may_refuse = True  # the type follower knows the class of a literal and may refuse a builtin method without a signature
+        elif k == 19:
+            # a module used as a bare value cannot be transported
+            items.append(f"({p}.n, om)")
+            used.add("om!")
         elif k in (14, 15):  # the name is captured by an inlined one-line helper function, not by the lambda itself
             hk = draw(st.sampled_from(["G1", "Ac", "v1"]))
             if hk != shadowed_by_param or hk != "G1":
@@ -126,7 +146,7 @@ def _case(draw):
     if draw(st.booleans()):
         hist.append(["call-again", ""])  # the query-building function is called a second time, after the rebinding steps
     return {"vals": vals, "v1_name": v1_name, "p": p, "items": items, "history": hist,
-            "used": sorted(used), "refuse": any(nontrans[u] for u in used)}
+            "used": sorted(u for u in used if u != "om!"), "refuse": any(u == "om!" or nontrans[u] for u in used), "may_refuse": may_refuse}
 
 
 def strategy(tier):
@@ -242,7 +262,7 @@ def check(case) -> Result:
             if log and log[-1][0] == "exc":
                 r.ref_error = True  # python itself cannot evaluate this lambda (e.g. interpreter scoping corner): nothing is required
                 return r
-            if not case["refuse"]:
+            if not case["refuse"] and not (case.get("may_refuse") and "no signature found" in str(e)):
                 return r.fail(f"ValueError although every captured value is transportable: {e}\n{text}")
             return r
         except Exception as e:
